@@ -360,4 +360,184 @@ theorem react_keysOK (nodes : Nat → Node) (exc : Nat → Nat → E) (refusal :
         · exact ⟨en, hen, h1, h2⟩
         · subst hen; exact absurd h1.symm (by simpa using hji)
 
+/-! ### the composite's own lists against the log; every run has a cause -/
+
+/-- `j` was run because it is a starting node, or because a signal that somebody emitted is wired to it -/
+def Caused (g : Graph) (fs : FStore E) (j : Nat) : Prop :=
+  j ∈ g.starters ∨ ∃ e r, Emitted fs e ∧ r ∈ g.conns e ∧ r.node = j
+
+structure SInv (g : Graph) (s : S (FStore E)) : Prop where
+  errs : s.errs = (s.store.log.filter (·.raised)).map (·.child)
+  fired : s.fired = s.store.log.map (·.child)
+  queue : ∀ p ∈ s.queue, Emitted s.store p.1 ∧ p.2 ∈ g.conns p.1
+  caused : ∀ j ∈ s.fired, Caused g s.store j
+
+theorem emitted_mono (fs fs' : FStore E) (en : Entry) (h : fs'.log = fs.log ++ [en]) (e : Sig) (he : Emitted fs e) :
+    Emitted fs' e := by
+  obtain ⟨x, hx, hm⟩ := he
+  exact ⟨x, by rw [h]; exact List.mem_append_left _ hx, hm⟩
+
+theorem caused_mono (g : Graph) (fs fs' : FStore E) (en : Entry) (h : fs'.log = fs.log ++ [en]) (j : Nat)
+    (hc : Caused g fs j) : Caused g fs' j := by
+  rcases hc with hc | ⟨e, r, he, hr, hn⟩
+  · exact Or.inl hc
+  · exact Or.inr ⟨e, r, emitted_mono fs fs' en h e he, hr, hn⟩
+
+theorem callRun_sinv (rep : Bool) (nodes : Nat → Node) (exc : Nat → Nat → E) (refusal : Nat → E) (g : Graph)
+    (s : S (FStore E)) (j : Nat) (h : SInv g s) (hc : Caused g s.store j) :
+    SInv g (callRun (flowSem rep nodes exc refusal) g s j) := by
+  obtain ⟨en, hl, hch, _, hr, hs⟩ := react_entry rep nodes exc refusal s.store j
+  obtain ⟨he, hf, hq, hcs⟩ := h
+  have hstore : (callRun (flowSem rep nodes exc refusal) g s j).store = (react rep nodes exc refusal s.store j).1 := rfl
+  have hqueue : (callRun (flowSem rep nodes exc refusal) g s j).queue =
+      s.queue ++ pairs g (react rep nodes exc refusal s.store j).2.2 := rfl
+  have herrs : (callRun (flowSem rep nodes exc refusal) g s j).errs =
+      if (react rep nodes exc refusal s.store j).2.1 then s.errs ++ [j] else s.errs := rfl
+  have hfired : (callRun (flowSem rep nodes exc refusal) g s j).fired = s.fired ++ [j] := rfl
+  refine ⟨?_, ?_, ?_, ?_⟩
+  · rw [herrs, hstore, hl, ← hr, he]
+    cases hrr : en.raised <;> simp [hrr, hch]
+  · rw [hfired, hstore, hl, hf]; simp [hch]
+  · intro p hp
+    rw [hqueue] at hp
+    rw [hstore]
+    rcases List.mem_append.mp hp with hp | hp
+    · exact ⟨emitted_mono _ _ en hl _ (hq p hp).1, (hq p hp).2⟩
+    · refine ⟨⟨en, by rw [hl]; simp, ?_⟩, mem_pairs hp⟩
+      rw [hs]
+      -- the first component of a pair comes from the emitted list
+      have : ∀ (l : List Sig) (p : Sig × Recv), p ∈ pairs g l → p.1 ∈ l := by
+        intro l
+        induction l with
+        | nil => intro p hp; simp [pairs] at hp
+        | cons a rest ih =>
+          intro p hp
+          simp only [pairs, List.mem_append, List.mem_map] at hp
+          rcases hp with ⟨r, _, rfl⟩ | hp
+          · simp
+          · simp [ih p hp]
+      exact this _ p hp
+  · intro x hx
+    rw [hfired] at hx
+    rw [hstore]
+    rcases List.mem_append.mp hx with hx | hx
+    · exact caused_mono g _ _ en hl x (hcs x hx)
+    · simp at hx; subst hx; exact caused_mono g _ _ en hl x hc
+
+theorem startAll_sinv (rep : Bool) (nodes : Nat → Node) (exc : Nat → Nat → E) (refusal : Nat → E) (g : Graph)
+    (l : List Nat) : ∀ s : S (FStore E), (∀ i ∈ l, i ∈ g.starters) → SInv g s →
+    SInv g (startAll (flowSem rep nodes exc refusal) g s l) := by
+  induction l with
+  | nil => intro s _ h; exact h
+  | cons i rest ih =>
+    intro s hl h
+    exact ih _ (fun x hx => hl x (by simp [hx])) (callRun_sinv rep nodes exc refusal g s i h (Or.inl (hl i (by simp))))
+
+theorem deliver_sinv (rep : Bool) (nodes : Nat → Node) (exc : Nat → Nat → E) (refusal : Nat → E) (g : Graph)
+    (s : S (FStore E)) (e : Sig) (r : Recv) (q : List (Sig × Recv)) (hq : s.queue = (e, r) :: q) (h : SInv g s) :
+    SInv g (deliver (flowSem rep nodes exc refusal) g { s with queue := q } e r) := by
+  have hhead := h.queue (e, r) (by rw [hq]; simp)
+  have hc : Caused g s.store r.node := Or.inr ⟨e, r, hhead.1, hhead.2, rfl⟩
+  have h0 : SInv g { s with queue := q } :=
+    ⟨h.errs, h.fired, fun p hp => h.queue p (by rw [hq]; exact List.mem_cons_of_mem _ hp), h.caused⟩
+  unfold deliver
+  split
+  · split
+    rename_i a fire _
+    dsimp only
+    have h1 : SInv g { s with queue := q, received := updF s.received r.node a.received } :=
+      ⟨h0.errs, h0.fired, h0.queue, h0.caused⟩
+    split
+    · exact callRun_sinv rep nodes exc refusal g _ _ h1 hc
+    · exact h1
+  · exact callRun_sinv rep nodes exc refusal g _ _ h0 hc
+
+theorem drain_sinv (rep : Bool) (nodes : Nat → Node) (exc : Nat → Nat → E) (refusal : Nat → E) (g : Graph)
+    (n : Nat) : ∀ s : S (FStore E), SInv g s → SInv g (drain (flowSem rep nodes exc refusal) g n s) := by
+  induction n with
+  | zero => intro s h; exact h
+  | succ n ih =>
+    intro s h
+    simp only [drain]
+    split
+    · exact h
+    · rename_i e r q hq
+      exact ih _ (deliver_sinv rep nodes exc refusal g s e r q hq h)
+
+theorem compositeRun_sinv (rep : Bool) (nodes : Nat → Node) (exc : Nat → Nat → E) (refusal : Nat → E) (g : Graph)
+    (fuel : Nat) (st : Store) (rec : Nat → List Label) :
+    SInv g (compositeRun (flowSem rep nodes exc refusal) g fuel (S.init (FStore.init st) rec)) := by
+  unfold compositeRun compositeRunFrom
+  apply drain_sinv
+  apply startAll_sinv _ _ _ _ _ _ _ (fun i hi => hi)
+  exact ⟨rfl, rfl, fun p hp => by simp [S.init] at hp, fun j hj => by simp [S.init] at hj⟩
+
+/-- a child emits its own channels only -/
+theorem emitting_own (nodes : Nat → Node) (st : Store) (i : Nat) : ∀ e ∈ emitting nodes st i, e / 4 = i := by
+  have h0 : sigRan i / 4 = i := by simp [sigRan]
+  have h1 : sigFailed i / 4 = i := by show (4 * i + 1) / 4 = i; omega
+  have h2 : sigTrue i / 4 = i := by show (4 * i + 2) / 4 = i; omega
+  have h3 : sigFalse i / 4 = i := by show (4 * i + 3) / 4 = i; omega
+  intro e he
+  unfold emitting at he
+  cases hk : (nodes i).kind <;> simp only [hk] at he <;>
+    first
+      | (split at he <;> simp at he <;> subst he <;> assumption)
+      | skip
+  -- the `If` case
+  split at he
+  · simp at he; subst he; exact h1
+  · cases ho : st.out i <;> simp only [ho] at he <;> simp at he <;>
+      first
+        | (subst he; exact h0)
+        | (rcases he with he | he
+           · subst he; exact h0
+           · split at he <;> (subst he; first | exact h2 | exact h3))
+
+def LogOwn (fs : FStore E) : Prop := ∀ en ∈ fs.log, ∀ e ∈ en.sigs, e / 4 = en.child
+
+theorem react_logOwn (rep : Bool) (nodes : Nat → Node) (exc : Nat → Nat → E) (refusal : Nat → E) (fs : FStore E) (i : Nat)
+    (h : LogOwn fs) : LogOwn (react rep nodes exc refusal fs i).1 := by
+  intro en hen e he
+  simp only [react, List.mem_append, List.mem_singleton] at hen
+  rcases hen with hen | hen
+  · exact h en hen e he
+  · subst hen
+    simp only at he ⊢
+    have ho := runNode_outcome nodes fs.st i
+    generalize runNode nodes fs.st i = r at ho he
+    cases ho with
+    | refused _ => simp at he
+    | completed st' _ _ _ _ => exact emitting_own nodes st' i e he
+    | raised st' _ _ _ _ _ => exact emitting_own nodes st' i e he
+
+/-- keys distinct, all equal to `i`, not empty: a singleton -/
+theorem single_key (l : List (Nat × E)) (i : Nat) (hn : (l.map (·.1)).Nodup) (hall : ∀ p ∈ l, p.1 = i) (hne : l ≠ []) :
+    ∃ e, l = [(i, e)] := by
+  cases l with
+  | nil => exact absurd rfl hne
+  | cons p rest =>
+    obtain ⟨k, v⟩ := p
+    have hk : k = i := hall (k, v) (by simp)
+    subst hk
+    cases rest with
+    | nil => exact ⟨v, rfl⟩
+    | cons q rest' =>
+      have hq : q.1 = k := hall q (by simp)
+      simp only [List.map_cons, List.nodup_cons, List.mem_cons, List.mem_map, not_or] at hn
+      exact absurd hq.symm hn.1.1
+
+theorem dget_mem (l : List (Nat × E)) (p : Nat × E) (hp : p ∈ l) : (dget l p.1).isSome = true := by
+  induction l with
+  | nil => cases hp
+  | cons q rest ih =>
+    obtain ⟨k, v⟩ := q
+    by_cases hk : k = p.1
+    · simp [dget, hk]
+    · rcases List.mem_cons.mp hp with h | h
+      · subst h; simp at hk
+      · simp [dget, hk, ih h]
+
+theorem dget_single (i : Nat) (e : E) : dget [(i, e)] i = some e := by simp [dget]
+
 end PwVerif.FlowFail
